@@ -174,13 +174,8 @@ Section Spec.
 
   Lemma parse_float_literal_post s : post (parse_float_literal s) (fun e => gate_expr e = true).
   Proof.
-    unfold parse_float_literal.
-    destruct (split_number s) as [[[[neg ip] fp] ex]|]; [|apply post_unsupported].
-    destruct (Z.leb 400 ex); [apply post_syntax|].
-    match goal with |- context [if ?c then _ else _] => destruct c end; [apply post_unsupported|].
-    cbv zeta. match goal with |- context [if ?c then _ else _] => destruct c end; [reflexivity|].
-    match goal with |- context [match ?p with Zpos _ => _ | _ => _ end] => destruct p end;
-      try apply post_unsupported; reflexivity.
+    destruct (parse_float_literal_cases s) as [->|[->|[n ->]]];
+      [apply post_unsupported|apply post_syntax|reflexivity].
   Qed.
 
   Ltac bstep_core H := eapply post_bind; [exact H|]; cbv beta.
